@@ -125,9 +125,6 @@ func (ti *typeInfo) normalize() error {
 			ti.HashPrefix = f
 			continue
 		}
-		if !f.Opts.Group && !f.Opts.OmitEmpty && !f.Opts.Inline {
-			ti.NumReqValues++
-		}
 		if f.Opts.Param == "" {
 			fields = append(fields, f)
 			continue
@@ -141,6 +138,13 @@ func (ti *typeInfo) normalize() error {
 		}
 		fields = append(fields, fi)
 		params[f.Opts.Param] = true
+	}
+	// Count the fields that survive name resolution: a param shadowed by
+	// an embedded struct's field of the same name is one field, not two
+	for _, f := range fields {
+		if !f.Opts.Group && !f.Opts.OmitEmpty && !f.Opts.Inline {
+			ti.NumReqValues++
+		}
 	}
 	ti.Fields = fields
 	return nil
